@@ -102,6 +102,9 @@ func (p biPoint) text() string {
 	for _, a := range p.Pt.Args {
 		parts = append(parts, a.Src)
 	}
+	if p.Pt.Fn == "compl" {
+		return "^" + parts[0]
+	}
 	s := p.Pt.Fn + "(" + strings.Join(parts, ", ")
 	if p.Pt.Spread {
 		s += " ..." // the space keeps `1 ...` from being read as the float literal `1.`
@@ -119,7 +122,7 @@ func biOpClass(o biOp) string {
 		return "var:" + o.Ty
 	case "const":
 		return "untyped-" + o.Ck + "-const"
-	case "tconst":
+	case "tconst", "uconst":
 		return "typed-const:" + o.Ty
 	case "type":
 		return "type:" + o.Ty
@@ -171,6 +174,9 @@ func biCvFromSpec(cv []any) string {
 		return fmt.Sprintf("strlen:%d", num(1))
 	case "cplx":
 		return "cplx:" + big.NewRat(num(1), num(2)).String() + ";" + big.NewRat(num(3), num(4)).String()
+	case "p2m": // 2^w - k
+		v := new(big.Int).Lsh(big.NewInt(1), uint(num(1)))
+		return "num:" + new(big.Rat).SetInt(v.Sub(v, big.NewInt(num(2)))).String()
 	}
 	return "?"
 }
@@ -382,6 +388,14 @@ func (w *biWorld) push(cb *gogen.CodeBuilder, o biOp) {
 		cb.Typ(w.tys[o.Ty])
 	case "field":
 		cb.Val(obj("vS")).MemberVal(strings.TrimPrefix(o.Src, "vS."), 0)
+	case "uconst": // T(n) or unsafe.F(v)
+		open := strings.Index(o.Src, "(")
+		head, arg := o.Src[:open], strings.TrimSuffix(o.Src[open+1:], ")")
+		if strings.HasPrefix(head, "unsafe.") {
+			cb.Val(w.pkg.Unsafe().Ref(strings.TrimPrefix(head, "unsafe."))).Val(obj(arg)).Call(1)
+		} else {
+			cb.Typ(types.Universe.Lookup(head).Type()).Val(o.N).Call(1)
+		}
 	case "const":
 		switch o.Ck {
 		case "string":
@@ -427,19 +441,24 @@ func (w *biWorld) build(p biPoint) (g biG) {
 			cb.ResetStmt()
 		}
 	}()
-	if p.isUnsafe() {
-		cb.Val(pkg.Unsafe().Ref(p.Pt.Fn))
+	if p.Pt.Fn == "compl" {
+		w.push(cb, p.Pt.Args[0])
+		cb.UnaryOp(token.XOR)
 	} else {
-		cb.Val(pkg.Builtin().Ref(p.Pt.Fn))
+		if p.isUnsafe() {
+			cb.Val(pkg.Unsafe().Ref(p.Pt.Fn))
+		} else {
+			cb.Val(pkg.Builtin().Ref(p.Pt.Fn))
+		}
+		for _, a := range p.Pt.Args {
+			w.push(cb, a)
+		}
+		flags := gogen.InstrFlags(0)
+		if p.Pt.Spread {
+			flags = gogen.InstrFlagEllipsis
+		}
+		cb.CallWith(len(p.Pt.Args), 0, flags)
 	}
-	for _, a := range p.Pt.Args {
-		w.push(cb, a)
-	}
-	flags := gogen.InstrFlags(0)
-	if p.Pt.Spread {
-		flags = gogen.InstrFlagEllipsis
-	}
-	cb.CallWith(len(p.Pt.Args), 0, flags)
 	el := cb.InternalStack().Pop()
 	cb.ResetStmt()
 	if len(w.errs) > 0 {
